@@ -357,7 +357,8 @@ def run(ctx):
                       dict(kind="implementation-monitor/L2", input=dict(template=("waitflow(gate after wait)" if f.get("wait") else "fanout") + "+cancel+resume" + ("+hang" if f.get("hang") else ""), seed=f["seed"])))
     report_l2(ctx, fails)
     from props._engine_common import run_runnerdiff
-    run_runnerdiff(ctx, ctx.n(60, 1500), 'C31_finished_run_is_frozen / C31_no_command_after_the_halt')
+    run_runnerdiff(ctx, ctx.n(60, 1500), 'C31_run_loop_timeout_event_is_the_last_stream_event / C31_run_loop_cancelled_event_is_the_last_stream_event / C31_finished_run_is_frozen',
+                   need_outcomes=(3, 4))
     ctx.partial.append("a synchronous step running in an executor thread cannot be cancelled by the engine; only async steps "
                        "are scheduled by the deterministic driver")
 
